@@ -274,3 +274,32 @@ Section Arms.
 End Arms.
 Definition arms_view {C} (arms : list (list C * pv)) : list (list C * tv) := map (fun a => (fst a, gen_view (snd a))) arms.
 Definition arms_string {C} (arms : list (list C * pv)) : list (list C * ts) := map (fun a => (fst a, gen_string (snd a))) arms.
+
+(** ** the per-locale `match` with or-patterns for defaulted locales
+
+    [Interpolation::create_locale_impl] (view), [create_locale_string_impl] (string / display) and the
+    literal accessors of [create_locale_type_inner] each emit their own `match locale { .. }`: one arm per locale
+    that DEFINES the key, written `L::t | L::d1 | L::d2 => <value of t>` where d1, d2 are the locales
+    [DefaultedLocales::compute] groups under t.  Locales are numbers; [groups] is compute's map. *)
+Definition arm_pat := (N * list N)%type.
+Definition pat_covers (l : N) (p : arm_pat) : bool := (l =? fst p) || existsb (N.eqb l) (snd p).
+(** Rust's `match`: the first arm whose pattern accepts the scrutinee *)
+Fixpoint locale_match {V} (arms : list (arm_pat * V)) (l : N) : option V :=
+  match arms with
+  | [] => None
+  | (p, v) :: r => if pat_covers l p then Some v else locale_match r l
+  end.
+(** `computed_defaults.get(&locale)`: the set grouped under t (the keys of a BTreeMap are unique, so the union
+    over entries with key t is that one set) *)
+Definition group_get (groups : list (N * list N)) (t : N) : list N :=
+  flat_map (fun ts => if fst ts =? t then snd ts else []) groups.
+Definition build_arms {V} (groups : list (N * list N)) (defs : list (N * V)) : list (arm_pat * V) :=
+  map (fun d => ((fst d, group_get groups (fst d)), snd d)) defs.
+(** [defs]: the locales that define the key, in configuration order, with their values.  The view and the string
+    implementation iterate them in reverse (`locales.iter().rev()`), the literal accessor forward. *)
+Definition view_locale_match (groups : list (N * list N)) (defs : list (N * pv)) (l : N) : option tv :=
+  locale_match (build_arms groups (rev (map (fun d => (fst d, gen_view (snd d))) defs))) l.
+Definition string_locale_match (groups : list (N * list N)) (defs : list (N * pv)) (l : N) : option ts :=
+  locale_match (build_arms groups (rev (map (fun d => (fst d, gen_string (snd d))) defs))) l.
+Definition literal_locale_match (groups : list (N * list N)) (defs : list (N * lit)) (l : N) : option lit :=
+  locale_match (build_arms groups defs) l.
